@@ -131,6 +131,7 @@ type interpreter struct {
 	extCache     map[*ssa.Function]externalFn
 	choices      map[string]string
 	onces        map[*value]*onceState
+	pools        map[*value]*poolState
 	nextChanID   int
 	schedCache   map[string]bool
 	schedHits    int
@@ -360,6 +361,7 @@ func (i *interpreter) runPath(fn *ssa.Function, prefix []int) (res *PathResult) 
 	i.mutexes = map[*value]*mutexState{}
 	i.wgs = map[*value]*wgState{}
 	i.onces = nil
+	i.pools = nil
 	i.counts = map[string]int{}
 	i.choices = map[string]string{}
 	i.trace = nil
